@@ -85,6 +85,9 @@ def run_shard(cases):
         pick = int(_h.sha256(repr(cases[0]).encode()).hexdigest(), 16)
         from ..common import STORE_ALGOS
         cfg = dict(depth=[3, 1, 2][pick % 3], width=[2, 1, 4][(pick // 3) % 3], algo=STORE_ALGOS[(pick // 9) % 5])
+        from ..seqengine import path_spelling
+        cfg["store_dir"] = path_spelling(scratch, pick // 45)
+        res.count("stores_reached_through_a_non_canonical_path", 1 if cfg["store_dir"] != "store" else 0)
         pool = WorldPool(scratch, contents, {}, **cfg)
         for n, (content, algo, sp, cs, sz, prior, entry) in enumerate(cases):
             setup = [{"op": "store", "pid": "bystander", "content": "unrelated", "kind": "path"}]
